@@ -7,6 +7,7 @@
    translated expression by expression into Gen/GenUnits.v on every run. *)
 From Coq Require Import List Bool ZArith QArith Qabs.
 From PV Require Import Base.QUtil Gen.GenUnits Gen.GenLimits Model.Limits Proofs.LimitsProofs.
+From PV Require Model.Trap Proofs.TrapProofs.
 Import ListNotations.
 Open Scope Q_scope.
 
@@ -102,3 +103,16 @@ Proof. exact opts_limit_is_standard. Qed.
 Print Assumptions C04_opts_limit_is_standard.
 
 Example C04_nonvacuous := ext_trap_example.
+
+(* ---- make_trapezoid (model and proofs of C11, Model/Trap.v): every returned trapezoid, for every
+   argument record, is well formed and within the effective limits (overrides if given) ---- *)
+Theorem C04_make_trapezoid_safe : forall a g, Trap.make_trap a = Trap.OK g ->
+  (0 < Trap.t_rise g /\ 0 <= Trap.t_flat g /\ 0 < Trap.t_fall g) /\
+  Qabs (Trap.t_amplitude g) <= Trap.eff_max_grad a + Trap.eps /\
+  Qabs (Trap.t_amplitude g) / Trap.t_rise g <= Trap.eff_max_slew a * (1 + Trap.eps) /\
+  Qabs (Trap.t_amplitude g) / Trap.t_fall g <= Trap.eff_max_slew a * (1 + Trap.eps).
+Proof.
+  intros a g H. split; [exact (TrapProofs.trap_wellformed_l a g H)|].
+  destruct (TrapProofs.trap_within_limits_l a g H) as [A [_ [_ [B C]]]]. auto.
+Qed.
+Print Assumptions C04_make_trapezoid_safe.
